@@ -20,15 +20,184 @@ theorem splitOnAux_of_not_infix (S P : List Char) (hP : ¬ P <:+: S)
   match R, Q, hQ with
   | [], Q, _ =>
     have hend : String.Pos.Raw.atEnd (String.ofList S) ⟨utf8Len L + utf8Len M⟩ = true := by
-      have := (String.atEnd_of_valid (L ++ M) []).2 rfl
-      simpa [hS] using this
+      simp [hS, -String.ofList_append]
     rw [if_pos hend]
     have : (⟨utf8Len L + utf8Len M⟩ : String.Pos.Raw) = (String.ofList S).rawEndPos := by
-      simp [hS]
+      simp [hS, -String.ofList_append]
     rw [this, String.extract_zero_rawEndPos]
     rfl
   | c :: R', q :: Q', _ =>
-    sorry
+    have hend : ¬ String.Pos.Raw.atEnd (String.ofList S) ⟨utf8Len L + utf8Len M⟩ = true := by
+      have := (String.atEnd_of_valid (L ++ M) (c :: R'))
+      simp only [hS, ← utf8Len_append]
+      rw [this]; simp
+    rw [if_neg hend]
+    have hgetS : String.Pos.Raw.get (String.ofList S) ⟨utf8Len L + utf8Len M⟩ = c := by
+      have := String.get_of_valid (L ++ M) (c :: R')
+      simpa [hS, -String.ofList_append] using this
+    have hgetP : String.Pos.Raw.get (String.ofList P) ⟨utf8Len M⟩ = q := by
+      have := String.get_of_valid M (q :: Q')
+      simpa [hPQ, -String.ofList_append] using this
+    have hnextS : String.Pos.Raw.next (String.ofList S) ⟨utf8Len L + utf8Len M⟩
+        = ⟨utf8Len L + utf8Len M + c.utf8Size⟩ := by
+      have := String.next_of_valid (L ++ M) c R'
+      simpa [hS, -String.ofList_append] using this
+    have hnextP : String.Pos.Raw.next (String.ofList P) ⟨utf8Len M⟩
+        = ⟨utf8Len M + q.utf8Size⟩ := by
+      have := String.next_of_valid M q Q'
+      simpa [hPQ, -String.ofList_append] using this
+    rw [hgetS, hgetP]
+    by_cases hcq : c = q
+    · subst hcq
+      simp only [beq_self_eq_true, if_true, hnextS, hnextP]
+      have hend2 : ¬ String.Pos.Raw.atEnd (String.ofList P) ⟨utf8Len M + c.utf8Size⟩ = true := by
+        have := String.atEnd_of_valid (M ++ [c]) Q'
+        simp only [utf8Len_append, utf8Len_cons, utf8Len_nil, Nat.zero_add, List.append_assoc,
+          List.singleton_append] at this
+        rw [hPQ, this]
+        intro hQ'
+        apply hP
+        refine ⟨L, R', ?_⟩
+        rw [hS, hPQ, hQ']
+        simp
+      rw [if_neg hend2]
+      exact splitOnAux_of_not_infix S P hP L (M ++ [c]) R' Q' (by rw [hS]; simp) (by rw [hPQ]; simp)
+        (fun hQ' => hend2 (by
+          have := String.atEnd_of_valid (M ++ [c]) Q'
+          simp only [utf8Len_append, utf8Len_cons, utf8Len_nil, Nat.zero_add, List.append_assoc,
+            List.singleton_append] at this
+          rw [hPQ, this]; exact hQ')) _ _ (by simp [Nat.add_assoc]) (by simp)
+    · have : (c == q) = false := by simpa using hcq
+      simp only [this, Bool.false_eq_true, if_false]
+      have hun : (String.Pos.Raw.unoffsetBy ⟨utf8Len L + utf8Len M⟩ ⟨utf8Len M⟩ : String.Pos.Raw)
+          = ⟨utf8Len L⟩ := by
+        ext; simp [String.Pos.Raw.byteIdx_unoffsetBy]
+      rw [hun]
+      obtain ⟨d, T, hdT⟩ : ∃ d T, M ++ c :: R' = d :: T := by
+        cases M with
+        | nil => exact ⟨c, R', rfl⟩
+        | cons m M' => exact ⟨m, M' ++ c :: R', rfl⟩
+      have hS' : S = L ++ d :: T := by rw [hS, List.append_assoc, hdT]
+      have hnext : String.Pos.Raw.next (String.ofList S) ⟨utf8Len L⟩ = ⟨utf8Len L + d.utf8Size⟩ := by
+        rw [hS']; exact String.next_of_valid L d T
+      rw [hnext]
+      exact splitOnAux_of_not_infix S P hP (L ++ [d]) [] T (M ++ q :: Q') (by rw [hS']; simp)
+        (by rw [hPQ]; simp) (by simp) _ _ (by simp) (by simp)
 termination_by ((M ++ R).length, Q.length)
+decreasing_by
+  all_goals simp_wf
+  · exact Prod.Lex.right _ (Nat.lt_succ_self _)
+  · apply Prod.Lex.left
+    have := congrArg List.length hdT
+    simp at this
+    omega
+
+/-- if the separator does not occur, legacy splitOn returns the whole string -/
+theorem splitOn_of_not_infix (s sep : String) (h : ¬ sep.toList <:+: s.toList) :
+    s.splitOn sep = [s] := by
+  unfold String.splitOn
+  split
+  · rfl
+  · rename_i hne
+    have hsep : sep.toList ≠ [] := by
+      intro h0
+      apply hne
+      have : sep = "" := by
+        rw [← String.ofList_toList (s := sep), h0]
+      simp [this]
+    have := splitOnAux_of_not_infix s.toList sep.toList h [] [] s.toList sep.toList
+      (by simp) (by simp) hsep 0 0 rfl rfl
+    simpa [String.ofList_toList] using this
+
+/-! ## 2. `lookupIn` reports absence when the key pattern does not occur -/
+
+/-- the search key of lookupIn as a character list -/
+def keyPattern (p n : Nat) : List Char :=
+  ('[' :: Nat.toDigits 10 p) ++ (',' :: Nat.toDigits 10 n) ++ [',', '[']
+
+theorem toList_key (p n : Nat) :
+    ("[" ++ toString p ++ "," ++ toString n ++ ",[").toList = keyPattern p n := by
+  have h1 : "[".toList = ['['] := by rfl
+  have h2 : ",".toList = [','] := by rfl
+  have h3 : ",[".toList = [',', '['] := by rfl
+  simp only [String.toList_append, Nat.toString_eq_repr, Nat.toList_repr, keyPattern, h1, h2, h3,
+    List.cons_append, List.nil_append, List.append_assoc]
+
+theorem lookupIn_absent_of_not_infix (text : String) (p n : Nat)
+    (h : ¬ keyPattern p n <:+: text.toList) :
+    Algobra.Conway.lookupIn text p n = .error .inputValue := by
+  unfold Algobra.Conway.lookupIn
+  rw [← toList_key] at h
+  simp only [splitOn_of_not_infix _ _ h]
+  rfl
+
+/-! ## 3. the key scanner finds every occurrence of a key pattern -/
+
+open Algobra.C04Check in
+theorem digitsVal_toDigits (p : Nat) : digitsVal (Nat.toDigits 10 p) = p := by
+  have : digitsVal (Nat.toDigits 10 p) = Nat.ofDigitChars 10 (Nat.toDigits 10 p) 0 := rfl
+  rw [this, Nat.ofDigitChars_ten_toDigits]
+
+theorem isDigit_toDigits (p : Nat) : ∀ c ∈ Nat.toDigits 10 p, Char.isDigit c = true :=
+  fun _ hc => Nat.isDigit_of_mem_toDigits (by decide) (by decide) hc
+
+theorem dropWhile_digits_comma (p : Nat) (rest : List Char) :
+    (Nat.toDigits 10 p ++ ',' :: rest).dropWhile Char.isDigit = ',' :: rest := by
+  rw [List.dropWhile_append_of_pos (isDigit_toDigits p), List.dropWhile_cons_of_neg (by decide)]
+
+theorem takeWhile_digits_comma (p : Nat) (rest : List Char) :
+    (Nat.toDigits 10 p ++ ',' :: rest).takeWhile Char.isDigit = Nat.toDigits 10 p := by
+  rw [List.takeWhile_append_of_pos (isDigit_toDigits p), List.takeWhile_cons_of_neg (by decide),
+    List.append_nil]
+
+open Algobra.C04Check in
+theorem keyAt_keyPattern (p n : Nat) (rest : List Char) :
+    keyAt (keyPattern p n ++ rest) = some (p, n) := by
+  have e : keyPattern p n ++ rest =
+      '[' :: (Nat.toDigits 10 p ++ ',' :: (Nat.toDigits 10 n ++ ',' :: '[' :: rest)) := by
+    simp [keyPattern]
+  rw [e, keyAt]
+  simp only [dropWhile_digits_comma, takeWhile_digits_comma]
+  simp [Nat.toDigits_ne_nil, digitsVal_toDigits]
+
+open Algobra.C04Check in
+theorem mem_scanKeysAux (k : Nat × Nat) (l : List Char) (acc : List (Nat × Nat))
+    (h : k ∈ acc ∨ ∃ pre rest, l = pre ++ rest ∧ keyAt rest = some k) :
+    k ∈ scanKeysAux l acc := by
+  induction l generalizing acc with
+  | nil =>
+    rw [scanKeysAux]
+    rcases h with h | ⟨pre, rest, h, hk⟩
+    · simpa using h
+    · have : rest = [] := (List.append_eq_nil_iff.1 h.symm).2
+      subst this
+      simp [keyAt] at hk
+  | cons c t ih =>
+    rw [scanKeysAux]
+    rcases h with h | ⟨pre, rest, h, hk⟩
+    · split
+      · exact ih _ (Or.inl (List.mem_cons_of_mem _ h))
+      · exact ih _ (Or.inl h)
+    · cases pre with
+      | nil =>
+        simp only [List.nil_append] at h
+        rw [h, hk]
+        exact ih _ (Or.inl (List.mem_cons_self))
+      | cons a pre' =>
+        simp only [List.cons_append, List.cons.injEq] at h
+        split
+        · exact ih _ (Or.inr ⟨pre', rest, h.2, hk⟩)
+        · exact ih _ (Or.inr ⟨pre', rest, h.2, hk⟩)
+
+theorem mem_scanKeys_of_infix (l : List Char) (p n : Nat)
+    (h : keyPattern p n <:+: l) : (p, n) ∈ Algobra.C04Check.scanKeys l := by
+  obtain ⟨pre, rest, h⟩ := h
+  unfold Algobra.C04Check.scanKeys
+  exact mem_scanKeysAux _ _ _ (Or.inr ⟨pre, keyPattern p n ++ rest,
+    by rw [← h, List.append_assoc], keyAt_keyPattern p n rest⟩)
+
+#print axioms splitOn_of_not_infix
+#print axioms lookupIn_absent_of_not_infix
+#print axioms mem_scanKeys_of_infix
 
 end Algobra.C04
